@@ -89,6 +89,10 @@ class Serializer:
             return self.deserialize_task(cast(dict[str, jsonable], value), result_meta=None)
         elif self.is_serialized_enum(value):
             return self.deserialize_enum(cast(dict[str, jsonable], value))
+        elif isinstance(value, list):
+            return [self.deserialize_value(item) for item in value]
+        elif isinstance(value, dict):
+            return {key: self.deserialize_value(item) for key, item in value.items()}
         return value
 
     def is_serialized_enum(self, serialized: jsonable) -> bool:
